@@ -69,7 +69,32 @@ def template(tpl, x0, parallel=False):
 
 
 def structural_update(op, tree_tpl, parallel=False):
-    """The director's update {port: update} for an abstract operation."""
+    """The director's update {port: update} for an abstract operation.
+
+    op['noise'] adds a part that changes nothing after the structural part (the
+    abstract operation is the same): 1 - an empty update for another branch,
+    2 - an update adding 0 to a compartment the operation does not involve."""
+    upd = structural_update0(op, tree_tpl, parallel)
+    noise = op.get('noise')
+    if noise and upd and op['op'] not in ('none', 'addex'):
+        upd = {k: dict(v) for k, v in upd.items()}
+        if noise == 1:
+            for b in ('pool', 'leaves', 'agents'):
+                if b not in upd:
+                    upd[b] = {}
+                    break
+        else:
+            for b in upd:
+                if b == 'leaves':
+                    continue
+                used = {op.get(f) for f in ('k', 'k2', 'd1', 'd2')}
+                others = sorted(k for (bb, k) in tree_tpl if bb == b and k not in used)
+                if others:
+                    upd[b][others[0]] = {'v': {'x': 0}}
+    return upd
+
+
+def structural_update0(op, tree_tpl, parallel=False):
     o = op['op']
     if o == 'none':
         return {}
@@ -120,6 +145,15 @@ def structural_update(op, tree_tpl, parallel=False):
 
 
 GLOB = {'*': {'v': {'x': dict(X_SCHEMA)}}}
+# bare mode (a history whose first operation carries 'bare': True): every glob
+# port is declared {'*': {}}, the common idiom that names no sub-variable.  A
+# branch whose last child has gone then has neither children nor a sub-schema.
+GLOB_BARE = {'*': {}}
+BARE = [False]
+
+
+def glob():
+    return copy.deepcopy(GLOB_BARE if BARE[0] else GLOB)
 LEAVES = {'*': {'_default': 5, '_emit': True}}
 
 
@@ -135,7 +169,7 @@ class Director(Process):
         self.par = False
 
     def ports_schema(self):
-        return {'agents': copy.deepcopy(GLOB), 'pool': copy.deepcopy(GLOB),
+        return {'agents': glob(), 'pool': glob(),
                 'leaves': copy.deepcopy(LEAVES)}
 
     def next_update(self, timestep, states):
@@ -161,7 +195,7 @@ class Watcher(Step):
     """a step in the layer after the step director: what it sees must be the
     hierarchy as the director's operation left it"""
     def ports_schema(self):
-        return {'agents': copy.deepcopy(GLOB), 'pool': copy.deepcopy(GLOB)}
+        return {'agents': glob(), 'pool': glob()}
 
     def next_update(self, timestep, states):
         LOG.append(('watcher', copy.deepcopy(states)))
@@ -174,7 +208,7 @@ class Observer(Process):
     defaults = {'watch': False}
 
     def ports_schema(self):
-        sch = {'ag': copy.deepcopy(GLOB), 'g': {'t': {'_default': 0, '_emit': True}},
+        sch = {'ag': glob(), 'g': {'t': {'_default': 0, '_emit': True}},
                'out': {'_output': True, 'w': {'_default': 0}}}
         if self.parameters['watch']:
             sch['w'] = {'x': dict(X_SCHEMA)}
@@ -303,6 +337,9 @@ def id_paths(eng):
 
 
 def view_x(view):
+    if BARE[0]:
+        # one entry per child, holding nothing (no sub-variable is declared)
+        return {k: (-1 if v == {} or k == '__none__' else -888) for k, v in view.items()}
     return {k: (v['v']['x'] if isinstance(v, dict) and set(v.keys()) == {'v'}
                 and isinstance(v['v'], dict) and set(v['v'].keys()) == {'x'}
                 and isinstance(v['v']['x'], int) else -888) for k, v in view.items()}
@@ -312,6 +349,7 @@ def run_history(ops, initial=(), parallel=False, via_composite=False):
     """initial: [(branch, name, tpl, x0)]; returns (records, engine)"""
     global LOG
     LOG = []
+    BARE[0] = bool(ops and ops[0].get('bare'))
     director = Director({'script': list(ops)})
     director.par = parallel
     sdirector = StepDirector({'script': list(ops)})
@@ -394,12 +432,14 @@ def run_history(ops, initial=(), parallel=False, via_composite=False):
              'keys': sorted(k for k in oview.keys() if k != 'w'),
              'out': oview['out'] if isinstance(oview.get('out'), dict) else none}
         rec['watch'] = watch
+        rec['bare'] = BARE[0]
         w = (oview or {}).get('w', {}) if watch else {}
         rec['wview'] = w if isinstance(w, dict) and all(isinstance(v, int) for v in w.values()) \
             else none
         obs, ids = project(eng, ids)
         rec['obs'] = obs
         recs.append(rec)
+        tree_tpl.clear()
         for loc, comp in [((b, k), c) for b in obs['tree'] for k, c in obs['tree'][b].items()]:
             tree_tpl[loc] = comp['tpl']
         if exc is not None:
@@ -561,6 +601,8 @@ def random_history(rng, length, initial_model, **kw):
         cand = [o for o in applicable_ops(model, **kw) if o['op'] != 'addex' or rng.random() < 0.1]
         op = dict(rng.choice(cand))
         op['mode'] = 'proc' if op['op'] in ('addex', 'none') else rng.choice(['proc', 'step'])
+        if op['op'] not in ('addex', 'none') and rng.random() < 0.35:
+            op['noise'] = rng.choice([1, 2])
         ops.append(op)
         if op['op'] == 'addex':
             break
